@@ -142,7 +142,24 @@ def _r2(ctx):
                       (ci.name, len(s["effects"])))
 
 
-def _finite_formula(f, target):
+def _returned_array(f):
+    """name of the array the function returns (directly or wrapped in pd.Series)"""
+    names = set()
+    for r in [s for s in f.node.body if isinstance(s, (ast.Return, ast.If))]:
+        for x in ast.walk(r):
+            if isinstance(x, ast.Return) and x.value is not None:
+                v = x.value
+                if isinstance(v, ast.Call) and call_name(v) == "pd.Series" and v.args:
+                    v = v.args[0]
+                if isinstance(v, ast.Name):
+                    names.add(v.id)
+    if len(names) != 1:
+        raise AnalysisError("%s: returned array not unique: %s" % (f.key, sorted(names)))
+    return names.pop()
+
+
+def _finite_formula(f, target=None):
+    target = _returned_array(f)
     st = [s for s in walk_function(f.node) if isinstance(s, ast.Assign) and isinstance(s.targets[0], ast.Subscript)
           and isinstance(s.targets[0].value, ast.Name) and s.targets[0].value.id == target]
     if len(st) != 1:
@@ -150,13 +167,32 @@ def _finite_formula(f, target):
     return st[0]
 
 
+def _broadcast_names(f):
+    """(quantity, curve) locals from  `q, wc = transformed.broadcast(<param>)`"""
+    for s in f.node.body:
+        if isinstance(s, ast.Assign) and isinstance(s.targets[0], ast.Tuple) and isinstance(s.value, ast.Call) and \
+                isinstance(s.value.func, ast.Attribute) and s.value.func.attr == "broadcast" and len(s.targets[0].elts) == 2:
+            return s.targets[0].elts[0].id, s.targets[0].elts[1].id
+    raise AnalysisError("%s: broadcast unpacking not found" % f.key)
+
+
 def _r3(ctx):
     prog = ctx.prog
     ctx.rule("R-C08-3", floor=6, what="basquin_load o basquin_cycles == id on the finite branch (normal form); infinite default")
     fc = prog.func(WC + ".basquin_cycles")
     fl = prog.func(WC + ".basquin_load")
-    sc = _finite_formula(fc, "cycles")
-    sl = _finite_formula(fl, "load")
+    sc = _finite_formula(fc)
+    sl = _finite_formula(fl)
+    ld_name, _ = _broadcast_names(fc)
+    cyc_name, _ = _broadcast_names(fl)
+
+    def kname(f):
+        d = [s for s in f.node.body if isinstance(s, ast.Assign) and isinstance(s.targets[0], ast.Name) and
+             isinstance(s.value, ast.Call) and isinstance(s.value.func, ast.Attribute) and s.value.func.attr == "_make_k"]
+        if len(d) != 1:
+            raise AnalysisError("%s: slope array from _make_k not found" % f.key)
+        return d[0].targets[0].id
+    knames = {kname(fc), kname(fl)}
 
     def atom(e):
         e2 = _strip(e)
@@ -164,10 +200,12 @@ def _r3(ctx):
             return None
         if isinstance(e, ast.Attribute) and e.attr in ("SD", "ND"):
             return e.attr
-        if isinstance(e, ast.Name) and e.id == "ld":
+        if isinstance(e, ast.Name) and e.id == ld_name:
             return "L"
-        if isinstance(e, ast.Name) and e.id == "cyc":
+        if isinstance(e, ast.Name) and e.id == cyc_name:
             return "N"
+        if isinstance(e, ast.Name) and e.id in knames:
+            return "k"
         if isinstance(e, ast.Name):
             return e.id
         return None
@@ -175,9 +213,9 @@ def _r3(ctx):
         N_of_L = to_nf(sc.value, atom=atom, strip=_strip)
         L_of_N = to_nf(sl.value, atom=atom, strip=_strip)
         # compose
-        comp1 = Translator(atom=lambda e: (N_of_L if (isinstance(_strip(e), ast.Name) and _strip(e).id == "cyc" and _strip(e) is e) else atom(e)),
+        comp1 = Translator(atom=lambda e: (N_of_L if (isinstance(_strip(e), ast.Name) and _strip(e).id == cyc_name and _strip(e) is e) else atom(e)),
                            strip=_strip).tr(sl.value)
-        comp2 = Translator(atom=lambda e: (L_of_N if (isinstance(_strip(e), ast.Name) and _strip(e).id == "ld" and _strip(e) is e) else atom(e)),
+        comp2 = Translator(atom=lambda e: (L_of_N if (isinstance(_strip(e), ast.Name) and _strip(e).id == ld_name and _strip(e) is e) else atom(e)),
                            strip=_strip).tr(sc.value)
     except NFUnsupported as e:
         raise AnalysisError("Basquin formulas outside the normal-form fragment: %s" % e)
@@ -213,14 +251,14 @@ def _r3(ctx):
         ctx.violated(fc, sc, "the curve does not pass through the knee (SD, ND): cycles(SD) = %r, load(ND) = %r" %
                      (_subst_atom(N_of_L, "L", RF.sym("SD")), _subst_atom(L_of_N, "N", RF.sym("ND"))), text="knee")
     # defaults: infinite life / endurance limit outside the finite branch, finite mask = isfinite(k)
-    d = [s for s in fc.node.body if isinstance(s, ast.Assign) and isinstance(s.targets[0], ast.Name) and s.targets[0].id == "cycles"]
+    d = [s for s in fc.node.body if isinstance(s, ast.Assign) and isinstance(s.targets[0], ast.Name) and s.targets[0].id == _returned_array(fc)]
     ok = d and isinstance(d[0].value, ast.Call) and call_name(d[0].value) in ("np.full_like", "np.full") and \
         norm_text(d[0].value.args[1]) in ("np.inf", "float('inf')")
     if ok:
         ctx.holds(fc, d[0], "outside the finite branch the life is infinite")
     else:
         ctx.violated(fc, d[0] if d else fc.node, "cycles outside the finite branch are not initialised to infinity")
-    d = [s for s in fl.node.body if isinstance(s, ast.Assign) and isinstance(s.targets[0], ast.Name) and s.targets[0].id == "load"]
+    d = [s for s in fl.node.body if isinstance(s, ast.Assign) and isinstance(s.targets[0], ast.Name) and s.targets[0].id == _returned_array(fl)]
     ok = d and any(isinstance(n, ast.Attribute) and n.attr == "SD" for n in ast.walk(d[0].value)) and \
         any(isinstance(c.func, ast.Attribute) and c.func.attr == "copy" for c in calls_in(d[0].value))
     if ok:
@@ -228,8 +266,11 @@ def _r3(ctx):
     else:
         ctx.violated(fl, d[0] if d else fl.node, "load outside the finite branch is not a copy of the endurance limit SD")
     for f in (fc, fl):
-        m = [s for s in f.node.body if isinstance(s, ast.Assign) and isinstance(s.targets[0], ast.Name) and s.targets[0].id == "in_limit"]
-        if m and norm_text(m[0].value) == "np.isfinite(k)":
+        tgt = _finite_formula(f).targets[0]
+        mname = tgt.slice.id if isinstance(tgt.slice, ast.Name) else None
+        m = [s for s in f.node.body if isinstance(s, ast.Assign) and isinstance(s.targets[0], ast.Name) and s.targets[0].id == mname]
+        if m and isinstance(m[0].value, ast.Call) and call_name(m[0].value) == "np.isfinite" and \
+                isinstance(m[0].value.args[0], ast.Name) and m[0].value.args[0].id in knames:
             ctx.holds(f, m[0], "finite branch = finite slope")
         else:
             ctx.violated(f, m[0] if m else f.node, "finite-branch mask is not np.isfinite(k)")
@@ -252,8 +293,13 @@ def _r4(ctx):
         ctx.violated(mk, bl[0], "below-limit mask is %s, expected %s < %s" % (norm_text(cmp_), src, ref))
     st = [s for s in mk.node.body if isinstance(s, ast.Assign) and isinstance(s.targets[0], ast.Subscript)]
     mask = bl[0].targets[0].id
-    ok = len(st) == 1 and norm_text(st[0].targets[0]) == "k[%s]" % mask and norm_text(st[0].value) == "k_2[%s]" % mask
-    k0 = [s for s in mk.node.body if isinstance(s, ast.Assign) and isinstance(s.targets[0], ast.Name) and s.targets[0].id == "k"]
+    rk = [s for s in mk.node.body if isinstance(s, ast.Return)][-1]
+    kn = rk.value.id if isinstance(rk.value, ast.Name) else None
+    k2n = [s.targets[0].id for s in mk.node.body if isinstance(s, ast.Assign) and isinstance(s.targets[0], ast.Name) and
+           any(isinstance(n, ast.Attribute) and n.attr == "k_2" for n in ast.walk(s.value))]
+    ok = len(st) == 1 and kn is not None and k2n and norm_text(st[0].targets[0]) == "%s[%s]" % (kn, mask) and \
+        norm_text(st[0].value) == "%s[%s]" % (k2n[0], mask)
+    k0 = [s for s in mk.node.body if isinstance(s, ast.Assign) and isinstance(s.targets[0], ast.Name) and s.targets[0].id == kn]
     ok = ok and k0 and any(isinstance(n, ast.Attribute) and n.attr == "k_1" for n in ast.walk(k0[0].value)) and \
         any(isinstance(c.func, ast.Attribute) and c.func.attr == "copy" for c in calls_in(k0[0].value))
     if ok:
@@ -364,73 +410,89 @@ def _r7(ctx):
     ctx.rule("R-C08-7", floor=4, what="probability shift: same probit difference for SD and ND, std of TS resp. TN, new native probability = goal")
     f = prog.func(WC + ".transform_to_failure_probability")
     goal = [p for p in f.params if p != "self"][0]
-    defs = {s.targets[0].id: s for s in f.node.body if isinstance(s, ast.Assign) and isinstance(s.targets[0], ast.Name)}
-    for k in ("SD", "ND", "native_ppf", "goal_ppf"):
-        if k not in defs:
-            raise AnalysisError("transform_to_failure_probability: %s definition not found" % k)
+    defs = {}
+    for s in f.node.body:
+        if isinstance(s, ast.Assign) and isinstance(s.targets[0], ast.Name):
+            defs.setdefault(s.targets[0].id, []).append(s)
+    # roles: what is stored under the keys of the transformed curve
+    stored = {}
+    for s in f.node.body:
+        if isinstance(s, ast.Assign) and isinstance(s.targets[0], ast.Subscript) and isinstance(const_value(s.targets[0].slice), str) \
+                and isinstance(s.targets[0].value, ast.Name):
+            stored[const_value(s.targets[0].slice)] = (s, s.value)
+    for k in ("SD", "ND"):
+        if k not in stored:
+            raise AnalysisError("transform_to_failure_probability: transformed[%r] is not stored" % k)
+    tname = stored["SD"][0].targets[0].value.id
 
-    def src_of(name):
-        v = defs[name].value
-        return v.args[0] if isinstance(v, ast.Call) and call_name(v) in ("stats.norm.ppf", "norm.ppf") else None
-    nsrc, gsrc = src_of("native_ppf"), src_of("goal_ppf")
-    ok = nsrc is not None and isinstance(nsrc, ast.Attribute) and nsrc.attr == "failure_probability" and \
-        gsrc is not None and isinstance(gsrc, ast.Name) and gsrc.id == goal
-    if ok:
-        ctx.holds(f, defs["native_ppf"], "probits: native from the curve's own probability, goal from the argument")
-    else:
-        ctx.violated(f, defs["native_ppf"], "probits are not (native: curve's failure_probability, goal: the argument)")
+    def ppf_source(name):
+        d = defs.get(name, [])
+        if len(d) != 1:
+            return None
+        v = d[0].value
+        return v.args[0] if isinstance(v, ast.Call) and (call_name(v) or "").endswith("norm.ppf") and v.args else None
 
-    def shape(name, quantity, scatter):
-        v = defs[name].value
+    def shape(key, scatter):
+        s_, val = stored[key]
+        if not isinstance(val, ast.Name) or len(defs.get(val.id, [])) != 1:
+            return "transformed[%r] is not a single local definition" % key, None
+        d = defs[val.id][0]
+        v = d.value
         while isinstance(v, ast.Call) and call_name(v) in ("np.asarray", "np.array"):
             v = v.args[0]
-        if not (isinstance(v, ast.BinOp) and isinstance(v.op, ast.Div) and isinstance(v.left, ast.Attribute) and
-                v.left.attr == quantity):
-            return "not %s / 10**(...)" % quantity
-        d = v.right
-        if not (isinstance(d, ast.BinOp) and isinstance(d.op, ast.Pow) and const_value(d.left) == 10):
-            return "divisor is not a power of ten"
-        ex = d.right
+        if not (isinstance(v, ast.BinOp) and isinstance(v.op, ast.Div) and isinstance(v.left, ast.Attribute) and v.left.attr == key):
+            return "not %s / 10**(...)" % key, d
+        dv = v.right
+        if not (isinstance(dv, ast.BinOp) and isinstance(dv.op, ast.Pow) and const_value(dv.left) == 10):
+            return "divisor is not a power of ten", d
+        ex = dv.right
         if not (isinstance(ex, ast.BinOp) and isinstance(ex.op, ast.Mult)):
-            return "exponent is not a product"
+            return "exponent is not a product", d
         parts = [ex.left, ex.right]
-        diff = [p for p in parts if isinstance(p, ast.BinOp) and isinstance(p.op, ast.Sub)]
-        std = [p for p in parts if isinstance(p, ast.Call) and (call_name(p) or "").endswith("scattering_range_to_std")]
+        diff = [p_ for p_ in parts if isinstance(p_, ast.BinOp) and isinstance(p_.op, ast.Sub)]
+        std = [p_ for p_ in parts if isinstance(p_, ast.Call) and (call_name(p_) or "").endswith("scattering_range_to_std")]
         if len(diff) != 1 or len(std) != 1:
-            return "exponent is not (probit difference) * std"
-        if norm_text(diff[0]) != "native_ppf - goal_ppf":
-            return "probit difference is %s, expected native - goal" % norm_text(diff[0])
-        a = std[0].args[0]
-        if not (isinstance(a, ast.Attribute) and a.attr == scatter):
-            return "std is taken from %s, expected %s" % (norm_text(a), scatter)
-        return None
-    for name, q, sc in (("SD", "SD", "TS"), ("ND", "ND", "TN")):
-        p = shape(name, q, sc)
+            return "exponent is not (probit difference) * std", d
+        a, b = diff[0].left, diff[0].right
+        sa = ppf_source(a.id) if isinstance(a, ast.Name) else None
+        sb = ppf_source(b.id) if isinstance(b, ast.Name) else None
+        native_ok = isinstance(sa, ast.Attribute) and sa.attr == "failure_probability"
+        goal_ok = isinstance(sb, ast.Name) and sb.id == goal
+        if not (native_ok and goal_ok):
+            return "probit difference is %s with sources (%s, %s); expected native(curve) - goal(argument)" % (
+                norm_text(diff[0]), norm_text(sa) if sa is not None else None, norm_text(sb) if sb is not None else None), d
+        arg = std[0].args[0]
+        if not (isinstance(arg, ast.Attribute) and arg.attr == scatter):
+            return "std is taken from %s, expected %s" % (norm_text(arg), scatter), d
+        return None, d
+    for key, sc in (("SD", "TS"), ("ND", "TN")):
+        p, d = shape(key, sc)
         if p is None:
-            ctx.holds(f, defs[name], "%s' = %s / 10^((z_native - z_goal) * s(%s))" % (q, q, sc))
+            ctx.holds(f, d, "%s' = %s / 10^((z_native - z_goal) * s(%s)), probits from the curve's own and the requested probability" % (key, key, sc))
         else:
-            ctx.violated(f, defs[name], "shift of %s: %s" % (q, p))
-    st = [s for s in f.node.body if isinstance(s, ast.Assign) and isinstance(s.targets[0], ast.Subscript)
-          and const_value(s.targets[0].slice) == "failure_probability"]
-    ok = len(st) == 1 and isinstance(st[0].value, ast.Name) and st[0].value.id == goal
-    if ok:
-        ctx.holds(f, st[0], "the transformed curve's native probability is the goal probability")
+            ctx.violated(f, d or f.node, "shift of %s: %s" % (key, p), text="shift %s: %s" % (key, p[:60]))
+    st, val = stored.get("failure_probability", (f.node, None))
+    if isinstance(val, ast.Name) and val.id == goal:
+        ctx.holds(f, st, "the transformed curve's native probability is the goal probability")
     else:
-        ctx.violated(f, st[0] if st else f.node, "the transformed curve does not record the goal as its native failure "
+        ctx.violated(f, st, "the transformed curve does not record the goal as its native failure "
                      "probability: transforming again would start from the wrong quantile")
-    base = [s for s in f.node.body if isinstance(s, ast.Assign) and isinstance(s.targets[0], ast.Name) and s.targets[0].id == "transformed"]
+    base = defs.get(tname, [])
     ok = base and isinstance(base[0].value, ast.Call) and isinstance(base[0].value.func, ast.Attribute) and base[0].value.func.attr == "copy"
     if ok:
         ctx.holds(f, base[0], "the transformed data is a copy")
     else:
         ctx.violated(f, base[0] if base else f.node, "the transformed curve is not built on a copy of the broadcast data")
     # knee shift along the k_1 line
+    sdn = stored["SD"][1].id if isinstance(stored["SD"][1], ast.Name) else None
+    ndn = stored["ND"][1].id if isinstance(stored["ND"][1], ast.Name) else None
     aug = [s for s in f.node.body if isinstance(s, ast.AugAssign) and isinstance(s.op, ast.Mult)]
     ok = False
-    if len(aug) == 1 and isinstance(aug[0].value, ast.Call) and call_name(aug[0].value) == "np.power":
+    if len(aug) == 1 and isinstance(aug[0].value, ast.Call) and call_name(aug[0].value) == "np.power" and \
+            isinstance(_strip(aug[0].target), ast.Name) and _strip(aug[0].target).id == ndn:
         b, e = aug[0].value.args
         try:
-            ok = to_nf(b, atom=lambda x: ("SDn" if isinstance(_strip(x), ast.Name) and _strip(x).id == "SD" and _strip(x) is x else
+            ok = to_nf(b, atom=lambda x: ("SDn" if isinstance(_strip(x), ast.Name) and _strip(x).id == sdn and _strip(x) is x else
                                           ("SD0" if isinstance(x, ast.Attribute) and x.attr == "SD" else None)), strip=_strip) \
                 == to_nf(parse_expr("SDn/SD0")) and to_nf(e, atom=_atom) == to_nf(parse_expr("-k1"), atom=_atom)
         except NFUnsupported:
